@@ -220,6 +220,8 @@ class Engine:
             out.append("F23")
         if L.align and has_eof(t):
             out.append("F30")
+        if union_anon_nested(t):
+            out.append("F44")
         return out
 
     def model_read(self, L, data, pos, want, what, sigs=()):
